@@ -56,6 +56,12 @@ def concretise(E, model, value, heap):
         return scalar(model, value)
     if isinstance(value, tuple):
         return {'__tuple__': [concretise(E, model, v, heap) for v in value]}
+    if isinstance(value, Arr) and getattr(value, 'lead', None) is not None:
+        raise TooBig('arrays of opaque values are not concretised')
+    if isinstance(value, Opaque):
+        if getattr(value, 'cell', None) is not None or hasattr(value, 'length'):
+            raise TooBig('opaque value')
+        return {'__dict__': {}}
     if isinstance(value, Arr):
         if value.ndim != 1:
             shape = [int(_num(_ev(model, s))) if not isinstance(s, int) else s for s in value.shape]
@@ -85,8 +91,6 @@ def concretise(E, model, value, heap):
             if present:
                 out[k] = concretise(E, model, v, heap)
         return {'__dict__': out}
-    if isinstance(value, Opaque):
-        return {'__dict__': {}}
     if isinstance(value, PyList):
         return [concretise(E, model, v, heap) for v in value.items]
     raise TooBig('cannot concretise %r' % (value,))
